@@ -48,18 +48,19 @@ def specOf : String → Option OpSpec
   | "saslAuthenticate" => some (simpleOp "saslAuthenticate" saslAuthenticateResponseV0)
   | "createTopics" => some (simpleOp "createTopics" createTopicsResponse [36])     -- TopicAlreadyExists is skipped
   | "deleteTopics" => some (simpleOp "deleteTopics" deleteTopicsResponse)
-  | "apiVersions" => some { parse := fun _ => apiVersionsParse, drain := false, expectZero := false,
-                            post := .firstErr [], closeOnErr := false }
+  | "apiVersions" => some { parse := fun _ => apiVersionsParse, drain := false, expectZero := has "ApiVersions" "expectZeroSize",
+                            post := .firstErr [], closeOnErr := has "ApiVersions" "Close" && apiVersionsClosesNonKafka }
   | _ => none
 
-/-- every operation that goes through (*Conn).do -/
+/-- every operation that goes through (*Conn).do, plus ApiVersions (its own waitResponse call; the same rules since
+the fix C11-D33: expectZeroSize, close on non-kafka errors — both regenerated facts) -/
 def doOps : List String :=
-  ["listOffsets", "produce", "metadata", "brokers", "controller", "findCoordinator", "heartbeat", "joinGroup", "leaveGroup",
+  ["apiVersions", "listOffsets", "produce", "metadata", "brokers", "controller", "findCoordinator", "heartbeat", "joinGroup", "leaveGroup",
    "listGroups", "offsetCommit", "offsetFetch", "syncGroup", "saslHandshake", "saslAuthenticate", "createTopics", "deleteTopics"]
 
-/-- ReadBatchWith skips the rest of the frame on kafka errors and the message set of a response at the high watermark
-(regenerated facts) -/
-def fetchFixed : Bool := has "ReadBatchWith" "discardOnKafkaError" && fetchSkipsAtWatermark
+/-- ReadBatchWith skips the rest of the frame on kafka errors and the message set of a response at the high watermark,
+Batch.close minds the error of its final discard (regenerated facts) -/
+def fetchFixed : Bool := has "ReadBatchWith" "discardOnKafkaError" && fetchSkipsAtWatermark && batchCloseMindsDiscard
 
 /-- the syntactic condition under which `opRead` can only end non-failed with the frame fully consumed -/
 def OpSpec.good (o : OpSpec) (v : Nat) : Bool :=
